@@ -245,7 +245,7 @@ CLAIMED = {
              "(C13_s2f15_all_or_nothing), answers EAC 0 exactly when every id is known and every value is within its range, NaN excluded "
              "(C13_s2f15_accepts_iff_valid: the 'last error wins' loop as written against E5's condition), and after any history no constant is outside its declared "
              "min/max (C13_ec_in_range, invariant over all histories); S5F5 is never aborted and has one row per requested ALID, zero-length ALCD/ALTX for an alarm that does not "
-             "exist (C13_s5f5_lists_requested, D48); the AlarmsEnabled / AlarmsSet status variables list exactly the alarms enabled / set (C13_alarm_status_variables). Tied to the code by driving a real equipment handler and comparing replies and tables.",
+             "exist (C13_s5f5_lists_requested, D48); the AlarmsEnabled / AlarmsSet status variables list exactly the alarms enabled / set (C13_alarm_status_variables). Tied to the code by driving a real equipment handler and comparing replies and tables. set_alarm / clear_alarm are read statement by statement on every run (Gen/Alarms.v) and the model's steps are proved to be these sequences carried out - the state changes before the report (C13_alarm_code_is_model).",
         note=NOTE_COMMON + " Outside the modelled domain: values of a type other than the constant's (accepted by the library and fatal for later S2F13 - noted in DESIGN.md), "
              "the predefined SVIDs 1001-1005 / ECIDs 1-2 with their special cases, unknown ALIDs in S5F5 (the library aborts). The model is hand-written.",
         technique="Rocq proof (refinement of an E5 reference + invariant over histories, unbounded ids/values) + in-Coq differential correspondence on a real handler",
